@@ -9,6 +9,9 @@ import PqlModel.Props.C02EndToEnd
 import PqlModel.Props.C05Parsed
 import PqlModel.Props.C02EndToEndSource
 import PqlModel.Props.C05NoPlaceholder
+import PqlModel.Props.C01WriteExprIR
+import PqlModel.Props.C01WriteExprIRCases
+import PqlModel.Props.C01WriteExprIRAll
 #print axioms Pql.C01.C01_parens_write
 #print axioms Pql.C01.C01_parens_wrap
 #print axioms Pql.C01.C01_unparen_write
@@ -45,3 +48,32 @@ import PqlModel.Props.C05NoPlaceholder
 #print axioms Pql.C01T.C01_in_template
 #print axioms Pql.C01T.C01_call_default_template
 #print axioms Pql.C01T.C01_call_known_template
+#print axioms Pql.ExprIR.maybe_ir
+#print axioms Pql.ExprIR.tight_ir
+#print axioms Pql.ExprIR.hasJoin_ir
+#print axioms Pql.ExprIR.we_ir
+#print axioms Pql.ExprIR.writer_ir_count
+#print axioms Pql.ExprIR.writer_ir_countif
+#print axioms Pql.ExprIR.writer_ir_if
+#print axioms Pql.ExprIR.writer_ir_isnotnull
+#print axioms Pql.ExprIR.writer_ir_isnull
+#print axioms Pql.ExprIR.writer_ir_not
+#print axioms Pql.ExprIR.writer_ir_now
+#print axioms Pql.ExprIR.writer_ir_strcat
+#print axioms Pql.ExprIR.writer_ir_tolower
+#print axioms Pql.ExprIR.writer_ir_toupper
+#print axioms Pql.ExprIR.C01_exprIR_keys
+#print axioms Pql.ExprIR.C01_writers_have_units
+#print axioms Pql.ExprIR.C01_maybeParen_ir
+#print axioms Pql.ExprIR.C01_tight_ir
+#print axioms Pql.ExprIR.C01_hasJoinTerms_ir
+#print axioms Pql.ExprIR.C01_hasJoinTerms_ir_needs_good
+#print axioms Pql.ExprIR.C01_hasJoinTerms_ir_nonvacuous
+#print axioms Pql.ExprIR.known_eq
+#print axioms Pql.ExprIR.C01_writeExpression_step
+#print axioms Pql.ExprIR.C01_writeExpression_ir
+#print axioms Pql.ExprIR.C01_writeMaybeParen_ir
+#print axioms Pql.ExprIR.C01_writeTight_ir
+#print axioms Pql.ExprIR.C01_writeExpression_ir_nonjoin
+#print axioms Pql.ExprIR.C01_writeExpression_ir_needs_good
+#print axioms Pql.ExprIR.C01_writeExpression_ir_nonvacuous
